@@ -5,6 +5,7 @@ Lemmas / Accept / Ops / Laws.  The state machine is `BV.C10.step` (Model.lean): 
 call or one block connect / disconnect notification handled by netsync.
 -/
 import BV.C10.Rbf
+import BV.C10.ComposeUtxo
 import BV.Generated.C10
 namespace BV.C10
 open Spec Lemmas
@@ -294,6 +295,23 @@ zero relative lock -/
 theorem sequence_locks_persist (c : Chain) (b : Block) (t : TxAbs) (hm : c.mtp ≤ b.mtp)
     (hx : ∀ x ∈ t.ins, ∀ T ∈ b.txs, x ∉ T.ins) (h : seqLocksOk c t = true) :
     seqLocksOk (c.connect b) t = true := seqLocksOk_connect hm hx h
+
+/-! ### composition with C03 (the UTXO set as a fold of the active chain) -/
+
+/-- connecting a block in the mempool model's chain view is one `C03.Spec.applyBlock` step on the set the view
+represents (a transaction is mapped to C03's with `nOuts` spendable outputs; the block's transactions do
+not spend the block's own coinbase) -/
+theorem chain_view_connect_is_c03_step (c : Chain) (U : C03.Spec.UtxoSet) (hr : Represents c.utxo U) (b : Block)
+    (hcb : ∀ T ∈ b.txs, ∀ x ∈ T.ins, x.txid ≠ b.cb.id) :
+    Represents (c.connect b).utxo (C03.Spec.applyBlock U (c.height + 1) (toC03Block b)) :=
+  connect_represents hr b hcb
+
+/-- hence the view of a chain built from genesis by connecting `bs` holds exactly the outpoints of
+`C03.Spec.utxoOf bs`: what the mempool calls "unspent in the chain" is C03's protocol-level UTXO set -/
+theorem chain_view_is_c03_utxoOf (maturity mtp0 : Nat) (bs : List Block)
+    (hcb : ∀ b ∈ bs, ∀ T ∈ b.txs, ∀ x ∈ T.ins, x.txid ≠ b.cb.id) :
+    Represents (connectAll (State.init maturity mtp0).chain bs).utxo (C03.Spec.utxoOf (bs.map toC03Block)) :=
+  connectAll_represents bs _ _ represents_empty hcb
 
 /-! ### policy arithmetic -/
 
